@@ -813,7 +813,7 @@ REVIEWED = [
     (r"(::|<)Directive as std::fmt::Display>::fmt$", r"^call:" + re.escape(VEC_INDEX), e_args0),
     (r"(::|<)Directive as std::fmt::Display>::fmt$", r"^assert:BoundsCheck", e_args0),
     (r"DepManager::\w+(::\{closure#\d+\})*$", r"^call:std::option::Option::<T>::(unwrap|expect)$", e_notify_unwrap),
-    (r"execute_in_collect_deps_mode$", r"^call:std::panicking::panic", e_unreachable_collect),
+    (r"(execute_in_collect_deps_mode|execute_directive)$", r"^call:std::panicking::panic", e_unreachable_collect),
     (r"::\{closure#\d+\}$", r"^call:std::result::Result::<T, E>::expect$", e_send_expect),
     (r"get_line_ending_from_buf$", r"^assert:BoundsCheck", e_line_ending_buf),
     (r"get_line_ending_from_buf$", r"^call:std::slice::index::<impl std::ops::Index<I> for \[T\]>::index$", e_line_ending_slice),
